@@ -55,3 +55,55 @@ func VerifC18AggSigDB() {
 	vrt.Assert("a reader mutating its result does not change later answers", ok3 && p3.Root == r)
 	vrt.Reach("end")
 }
+
+func init() { VerifHarnesses["VerifC18AggSigDBV1"] = VerifC18AggSigDBV1 }
+
+// VerifC18AggSigDBV1: the channel-based store. A Store call hands its command to the writer and gives up (its context is
+// cancelled) before the writer executes it; the caller then mutates its object. What the writer stores, and what readers
+// get afterwards, must be the value as it was when Store was called; nothing the store holds shares memory with the
+// caller's object, and two reads share nothing either.
+func VerifC18AggSigDBV1() {
+	dl := &vDeadliner{ch: make(chan core.Duty, 1)}
+	db := NewMemDB(dl)
+	ctx, cancel := context.WithCancel(context.Background())
+	duty := core.Duty{Slot: 1, Type: core.DutyAttester}
+	r := vrt.Byte("root")
+	in := &vPtrSigned{Root: r, Sig: 1}
+	var cmd writeCommand
+	got := false
+	var serr error
+	vrt.Par1(func() {
+		serr = db.Store(ctx, duty, core.SignedDataSet{vPkA: in})
+	}, func() {
+		// the writer goroutine takes the command off the channel; before it executes it the caller gives up
+		cmd, got = <-db.commands, true
+		cancel()
+	})
+	vrt.Assert("the writer received the command and the cancelled Store returned the context error", got && serr != nil)
+	vrt.Assert("the command handed to the writer does not share memory with the caller's object", !vrt.SameObject(cmd.data, in))
+	in.Root++ // the caller mutates its object after Store returned
+	db.execCommand(cmd)
+	read := func() core.SignedData {
+		resp := make(chan core.SignedData, 1)
+		ok := db.execQuery(readQuery{memDBKey: memDBKey{duty: duty, pubKey: vPkA}, response: resp, cancel: make(chan struct{})})
+		vrt.Assert("the key is stored", ok)
+		return <-resp
+	}
+	s1 := read()
+	p1, ok1 := s1.(*vPtrSigned)
+	vrt.Assert("what is stored is the value as it was when Store was called", ok1 && p1.Root == r)
+	vrt.Assert("the stored value shares no memory with the caller's object", !vrt.SameObject(s1, in))
+	// the public read path clones what the writer hands out
+	actx := context.Background()
+	var g1, g2 core.SignedData
+	var e1, e2 error
+	serve := func() {
+		q := <-db.queries
+		db.execQuery(q)
+	}
+	vrt.Par1(func() { g1, e1 = db.Await(actx, duty, vPkA, 0) }, serve)
+	vrt.Par1(func() { g2, e2 = db.Await(actx, duty, vPkA, 0) }, serve)
+	vrt.Assert("reads succeed", e1 == nil && e2 == nil && g1 != nil && g2 != nil)
+	vrt.Assert("readers get private copies", !vrt.SameObject(g1, g2) && !vrt.SameObject(g1, s1) && !vrt.SameObject(g2, s1))
+	vrt.Reach("end")
+}
